@@ -686,6 +686,20 @@ class AnsweringOptions(FakeOptions):
     def readfd(self, fd):
         return self.pending.pop(fd, b'')
 
+    # a non-blocking pipe with finite room: room[fd] = free bytes (absent = unlimited);
+    # with no room at all os.write raises EAGAIN
+    def write(self, fd, data):
+        room = getattr(self, 'room', {}).get(fd)
+        if room is None:
+            return FakeOptions.write(self, fd, data)
+        if room <= 0:
+            import errno
+            raise OSError(errno.EAGAIN, 'Resource temporarily unavailable')
+        n = min(room, len(data))
+        self.room[fd] = room - n
+        self.written.append((fd, bytes(data[:n])))
+        return n
+
 
 def run_reject_history(pool_specs, ops):
     """pool_specs: [(name, [EventTypes names], listener priority)].  Each pool has
@@ -762,7 +776,7 @@ def run_reject_history(pool_specs, ops):
 
 # ------------------------------------------------------------------ PROCESS_COMMUNICATION through the real output dispatcher
 
-def run_capture(capmax, reads, channel='stdout', pname='worker', gname='grp', pid=3131):
+def run_capture(capmax, reads, channel='stdout', pname='worker', gname='grp', pid=3131, loglevel=None):
     """A real Subprocess with a real POutputDispatcher on `channel` whose capture
     buffer holds capmax bytes; the child's output arrives in the given reads (the
     caller puts the BEGIN / END tokens in them).  One real pool subscribed to
@@ -774,10 +788,12 @@ def run_capture(capmax, reads, channel='stdout', pname='worker', gname='grp', pi
     events.clear()
     process.GlobalSerial.serial = -1
     try:
+        from supervisor.options import ServerOptions
         pool, popts = make_pool('supervisor', 'pool', pool_events=[events.ProcessCommunicationEvent])
         opts = AnsweringOptions()
-        opts.getLogger = loggers.getLogger
-        opts.loglevel = loggers.LevelsByName.INFO
+        # the real ServerOptions.getLogger, and the daemon's loglevel as configured
+        opts.getLogger = lambda *a, **k: ServerOptions.getLogger(opts, *a, **k)
+        opts.loglevel = loggers.LevelsByName.INFO if loglevel is None else loglevel
         opts.strip_ansi = False
         cfg = FakePConfig(opts, pname)
         for ch in ('stdout', 'stderr'):
@@ -814,7 +830,9 @@ def run_listener_history(nlisteners, ops):
     listener Subprocesses (real PInputDispatcher + PEventListenerDispatcher each).
     ops: ('emit',) | ('dispatch',) | ('ready', i) | ('ok', i) | ('fail', i) |
          ('garbage', i)  - a malformed result line while BUSY |
-         ('reap', i)     - the real Subprocess.finish(pid, 0) of listener i
+         ('reap', i)     - the real Subprocess.finish(pid, 0) of listener i |
+         ('full', i)     - listener i's stdin pipe has no room (os.write raises EAGAIN) |
+         ('drain', i)    - the pipe is writable again: the real handle_write_event()
     Returns (per op: [(listener index, bytes written to its stdin during the op)],
              serials left in the pool's buffer)."""
     from supervisor import rpcinterface
@@ -859,6 +877,17 @@ def run_listener_history(nlisteners, ops):
             elif k == 'reap':
                 with patched_time(5000.0):
                     procs[op[1]].finish(procs[op[1]].pid, 0)
+            elif k == 'full':
+                # the listener does not read: its stdin pipe has no room left
+                opts.room = getattr(opts, 'room', {})
+                opts.room[fds[op[1]][0]] = 0
+            elif k == 'drain':
+                # the listener reads again: the pipe is writable, the main loop calls handle_write_event
+                opts.room = getattr(opts, 'room', {})
+                opts.room.pop(fds[op[1]][0], None)
+                d = procs[op[1]].dispatchers.get(fds[op[1]][0])
+                if d is not None and d.writable():
+                    d.handle_write_event()
             else:
                 raise ValueError(op)
             sends = []
@@ -1035,3 +1064,35 @@ def run_finish_flush(state, pid, held_out, held_err, sts, killing=False, laststa
         return raised, render_events(got[:before]), render_events(got[before:]), proc.state, proc.pid
     finally:
         events.callbacks[:] = saved
+
+
+# ------------------------------------------------------------------ a listener's stdin pipe with finite room
+
+def run_pipe(ops):
+    """One real listener Subprocess with a real PInputDispatcher over a pipe with
+    finite room.  ops: ('write', bytes, room) - Subprocess.write(bytes) while the
+    pipe has `room` free bytes | ('drain', room) - handle_write_event().
+    Returns (bytes accepted by the pipe, bytes left in input_buffer, exception
+    name of the first call that raised or None)."""
+    opts = AnsweringOptions()
+    cfg = FakePConfig(opts, 'listener')
+    proc = cfg.make_process(None)
+    proc.state = ProcessStates.RUNNING
+    proc.pid = 4242
+    proc.pipes = {'stdin': 7}
+    d = dispatchers.PInputDispatcher(proc, 'stdin', 7)
+    proc.dispatchers = {7: d}
+    opts.room = {}
+    exc = None
+    for op in ops:
+        try:
+            if op[0] == 'write':
+                opts.room[7] = op[2]
+                proc.write(op[1])
+            else:
+                opts.room[7] = op[1]
+                if d.writable():
+                    d.handle_write_event()
+        except Exception as e:
+            exc = exc or type(e).__name__
+    return b''.join(x for _, x in opts.written), d.input_buffer, exc
